@@ -90,7 +90,7 @@ class Ctx:
 def insert_eps(B, arr_low, lvl):
     """Depth d-1 jet -> depth d jet whose eps_lvl coefficient is arr_low (primal part 0)."""
     z = B.zeros(arr_low.shape)
-    return np.stack([z, arr_low], axis=lvl)
+    return J.stack([z, arr_low], axis=lvl)
 
 
 def eps_part(arr, lvl, d):
@@ -123,7 +123,7 @@ def expand(v, d, fi_all, pre=0, post=0):
 
 
 def bcast(*arrs):
-    return np.broadcast_arrays(*arrs)
+    return J.bcast(*arrs)
 
 
 def fidims(v, d):
@@ -140,6 +140,9 @@ def evaluate(e, ctx):
         return r
     h = _dispatch(type(e))
     r = h(e, ctx)
+    r.arr = J.fix(r.arr)
+    if not isinstance(r.arr, np.ndarray):
+        r.arr = np.asarray(r.arr, dtype=complex) if ctx.B.name == "complex128" else ctx.B.asarray(r.arr)
     B = ctx.B
     # structural cross-check: declared attributes vs. what the operands imply
     d = ctx.d
@@ -270,19 +273,19 @@ def _ref_value(f, ctx, sidename):
         sp = w.sides["+"]
         gm, gp = sm.geo(B), sp.geo(B)
         Jm = gm("Jacobian")
-        x = np.einsum("gt,...t->...g", Jm, X)
+        x = J.einsum("gt,...t->...g", Jm, X)
         x0m = gm("CellOrigin")
         xprim = x[(0,) * d] + x0m
-        x = np.array(x, copy=True)
+        x = J.acopy(x)
         x[(0,) * d] = xprim
-        shift = np.array(x, copy=True)
+        shift = J.acopy(x)
         shift[(0,) * d] = shift[(0,) * d] - gp("CellOrigin")
-        Xp = np.einsum("tg,...g->...t", gp("JacobianInverse"), shift)
+        Xp = J.einsum("tg,...g->...t", gp("JacobianInverse"), shift)
         base = w.field(f, "+").eval(B, Xp, d)
         n = gp("FacetNormal")
-        rel = np.array(x, copy=True)
+        rel = J.acopy(x)
         rel[(0,) * d] = rel[(0,) * d] - B.asarray(w.x)
-        s = np.einsum("g,...g->...", n, rel)
+        s = J.einsum("g,...g->...", n, rel)
         q = w.jump_field(f).eval(B, Xp, d)
         cont = base + J.mul(s[..., None], q, d)
         own = w.field(f, "-").eval(B, X, d)
@@ -290,7 +293,7 @@ def _ref_value(f, ctx, sidename):
         for kind, rshape, deg, c in leaves:
             mask.extend([c] * int(np.prod(rshape, dtype=int)))
         mask = np.array(mask, dtype=bool)
-        return np.where(mask, cont, own)
+        return J.where(mask, cont, own)
     return w.field(f, sidename).eval(B, X, d)
 
 
@@ -308,17 +311,17 @@ def _pushforward(f, F, ctx, sidename):
             return Fl
         Jm, K, detJ = g("Jacobian"), g("JacobianInverse"), g("JacobianDeterminant")
         if kind == "contravariant":
-            return np.einsum("gt,...t->...g", Jm, Fl) / detJ
+            return J.einsum("gt,...t->...g", Jm, Fl) / detJ
         if kind == "covariant":
-            return np.einsum("tg,...t->...g", K, Fl)
+            return J.einsum("tg,...t->...g", K, Fl)
         if kind == "l2":
             return Fl / detJ
         if kind == "dcontra":
-            return np.einsum("gm,...mn,hn->...gh", Jm, Fl, Jm) / (detJ * detJ)
+            return J.einsum("gm,...mn,hn->...gh", Jm, Fl, Jm) / (detJ * detJ)
         if kind == "dcov":
-            return np.einsum("mg,...mn,nh->...gh", K, Fl, K)
+            return J.einsum("mg,...mn,nh->...gh", K, Fl, K)
         if kind == "covcontra":
-            return np.einsum("mg,...mn,hn->...gh", K, Fl, Jm) / detJ
+            return J.einsum("mg,...mn,hn->...gh", K, Fl, Jm) / detJ
         raise Unsupported("push-forward " + kind)
 
     def rec(el, Fflat):
@@ -343,7 +346,7 @@ def _pushforward(f, F, ctx, sidename):
                 s = el.sub_elements[i]
                 comps.append(rec(s, Fflat[..., offs[i] : offs[i + 1]]))
             sub_shape = comps[0].shape[d:]
-            arr = np.stack(comps, axis=d)
+            arr = J.stack(comps, axis=d)
             return arr.reshape(arr.shape[:d] + block + sub_shape)
         rshape = tuple(el.reference_value_shape)
         Fl = Fflat.reshape(Fflat.shape[:d] + rshape)
@@ -433,8 +436,8 @@ def _x(e, ctx):
     def f(s):
         g = ctx.world.sides[s].geo(B)
         X = ctx.posX(s)
-        x = np.einsum("gt,...t->...g", g("Jacobian"), X)
-        x = np.array(x, copy=True)
+        x = J.einsum("gt,...t->...g", g("Jacobian"), X)
+        x = J.acopy(x)
         x[(0,) * d] = x[(0,) * d] + g("CellOrigin")
         return x
 
@@ -687,9 +690,9 @@ def _conditional(e, ctx):
     m = m.reshape((1,) * a.rank + m.shape)
     x, y = bcast(x, y)
     tail = np.broadcast_shapes(x.shape[d:], m.shape)
-    x = np.broadcast_to(x, x.shape[:d] + tail)
-    y = np.broadcast_to(y, y.shape[:d] + tail)
-    return V(np.where(np.broadcast_to(m, tail), x, y), a.rank, fi)
+    x = J.broadcast_to(x, x.shape[:d] + tail)
+    y = J.broadcast_to(y, y.shape[:d] + tail)
+    return V(J.where(np.broadcast_to(m, tail), x, y), a.rank, fi)
 
 
 def _minmax(e, ctx, op):
@@ -700,7 +703,7 @@ def _minmax(e, ctx, op):
     fi = merge_fi(a, b)
     x, y = bcast(expand(a, d, fi), expand(b, d, fi))
     m = ctx.B.compare(op, J.primal(x, d), J.primal(y, d))
-    return V(np.where(m, x, y), 0, fi)
+    return V(J.where(m, x, y), 0, fi)
 
 
 @handler("MinValue")
@@ -795,7 +798,7 @@ def _list_tensor(e, ctx):
     if len(shapes) != 1:
         raise StructureMismatch("ListTensor rows of different shape")
     arrs = bcast(*arrs)
-    return V(np.stack(arrs, axis=d), rank + 1, fi)
+    return V(J.stack(arrs, axis=d), rank + 1, fi)
 
 
 @handler("Variable")
@@ -893,7 +896,7 @@ def _cross(e, ctx):
     m = lambda p, q: J.mul(p, q, d)
     comps = [m(x1, y2) - m(x2, y1), m(x2, y0) - m(x0, y2), m(x0, y1) - m(x1, y0)]
     comps = bcast(*comps)
-    return V(np.stack(comps, axis=d), 1, fi)
+    return V(J.stack(comps, axis=d), 1, fi)
 
 
 @handler("Perp")
@@ -903,7 +906,7 @@ def _perp(e, ctx):
     if a.rank != 1 or a.arr.shape[d] != 2:
         raise StructureMismatch("Perp needs a 2-vector")
     x0, x1 = np.take(a.arr, 0, axis=d), np.take(a.arr, 1, axis=d)
-    return V(np.stack([-x1, x0], axis=d), 1, a.fi)
+    return V(J.stack([-x1, x0], axis=d), 1, a.fi)
 
 
 @handler("Transposed")
@@ -934,16 +937,7 @@ def _trace(e, ctx):
     a = evaluate(e.ufl_operands[0], ctx)
     d = ctx.d
     _square(a, d, "Trace")
-    return V(np.trace(a.arr, axis1=d, axis2=d + 1) if a.arr.dtype != object else _obj_trace(a.arr, d), 0, a.fi)
-
-
-def _obj_trace(arr, d):
-    n = arr.shape[d]
-    out = None
-    for i in range(n):
-        t = np.take(np.take(arr, i, axis=d), i, axis=d)
-        out = t if out is None else out + t
-    return out
+    return V(J.trace(a.arr, d, d + 1), 0, a.fi)
 
 
 @handler("Determinant")
@@ -1000,8 +994,8 @@ def _cofactor(e, ctx):
             cj = [c for c in range(n) if c != j]
             minor = m[..., ri, :][..., :, cj]
             row.append(J.jdet(ctx.B, minor, d) * ((-1) ** (i + j)))
-        rows.append(np.stack(bcast(*row), axis=-1))
-    cof = np.stack(rows, axis=-2)
+        rows.append(J.stack(bcast(*row), axis=-1))
+    cof = J.stack(rows, axis=-2)
     return V(_mat_front(cof, d), 2, a.fi)
 
 
@@ -1011,7 +1005,7 @@ def _dev(e, ctx):
     d = ctx.d
     _square(a, d, "Deviatoric")
     n = a.arr.shape[d]
-    tr = np.trace(a.arr, axis1=d, axis2=d + 1) if a.arr.dtype != object else _obj_trace(a.arr, d)
+    tr = J.trace(a.arr, d, d + 1)
     eye = ctx.B.asarray(np.eye(n)).reshape((n, n) + (1,) * len(a.fi))
     tr = tr.reshape(tr.shape[:d] + (1, 1) + tr.shape[d:])
     return V(a.arr - tr * eye / ctx.B.scalar(n), 2, a.fi)
@@ -1049,7 +1043,7 @@ def _grad_array(f, ctx, kind):
         if v.fi != v0.fi or v.rank != v0.rank:
             raise StructureMismatch("derivative operand changed structure")
         comps.append(eps_part(v.arr, d, d + 1))
-    arr = np.stack(bcast(*comps), axis=d + v0.rank)
+    arr = J.stack(bcast(*comps), axis=d + v0.rank)
     return V(arr, v0.rank + 1, v0.fi)
 
 
@@ -1067,40 +1061,20 @@ def _div_of(g, d):
     if g.rank < 2:
         raise StructureMismatch("divergence of a scalar")
     a = g.arr
-    if a.shape[d + g.rank - 2] != a.shape[d + g.rank - 1]:
+    ax1, ax2 = d + g.rank - 2, d + g.rank - 1
+    if a.shape[ax1] != a.shape[ax2]:
         raise StructureMismatch("divergence: last axis length != dimension")
-    if a.dtype == object:
-        n = a.shape[d + g.rank - 1]
-        out = None
-        for i in range(n):
-            t = np.take(np.take(a, i, axis=d + g.rank - 1), i, axis=d + g.rank - 2)
-            out = t if out is None else out + t
-        return V(out, g.rank - 2, g.fi)
-    return V(np.moveaxis(np.trace(a, axis1=d + g.rank - 2, axis2=d + g.rank - 1), -1, -1), g.rank - 2, g.fi)
+    return V(J.trace(a, ax1, ax2), g.rank - 2, g.fi)
 
 
 @handler("Div")
 def _div(e, ctx):
-    g = _grad_array(e.ufl_operands[0], ctx, "phys")
-    return _div_of(g, ctx.d) if g.arr.dtype == object else _div_trace(g, ctx.d)
-
-
-def _div_trace(g, d):
-    if g.rank < 2:
-        raise StructureMismatch("divergence of a scalar")
-    a = g.arr
-    ax1, ax2 = d + g.rank - 2, d + g.rank - 1
-    if a.shape[ax1] != a.shape[ax2]:
-        raise StructureMismatch("divergence: last axis length != dimension")
-    # np.trace appends the result axis order correctly: removes ax1, ax2
-    t = np.trace(a, axis1=ax1, axis2=ax2)
-    return V(t, g.rank - 2, g.fi)
+    return _div_of(_grad_array(e.ufl_operands[0], ctx, "phys"), ctx.d)
 
 
 @handler("ReferenceDiv")
 def _rdiv(e, ctx):
-    g = _grad_array(e.ufl_operands[0], ctx, "ref")
-    return _div_of(g, ctx.d) if g.arr.dtype == object else _div_trace(g, ctx.d)
+    return _div_of(_grad_array(e.ufl_operands[0], ctx, "ref"), ctx.d)
 
 
 @handler("NablaGrad")
@@ -1119,19 +1093,7 @@ def _nabla_div(e, ctx):
     a = np.moveaxis(g.arr, d + g.rank - 1, d + 1)  # derivative axis next to the first shape axis
     if a.shape[d] != a.shape[d + 1]:
         raise StructureMismatch("nabla_div: first axis length != dimension")
-    if a.dtype == object:
-        out = None
-        for i in range(a.shape[d]):
-            t = np.take(np.take(a, i, axis=d + 1), i, axis=d)
-            out = t if out is None else out + t
-        return V(out, g.rank - 2, g.fi)
-    return V(np.trace(a, axis1=d, axis2=d + 1).transpose(_trace_fix(a.ndim - 2, d)), g.rank - 2, g.fi)
-
-
-def _trace_fix(ndim, d):
-    # np.trace removes the two axes and appends the summed diagonal... (no: it returns the
-    # remaining axes in order), so the identity permutation is right.
-    return list(range(ndim))
+    return V(J.trace(a, d, d + 1), g.rank - 2, g.fi)
 
 
 def _curl_from_grad(g, d, B):
@@ -1140,7 +1102,7 @@ def _curl_from_grad(g, d, B):
     if rank_f == 0:
         if a.shape[d] != 2:
             raise StructureMismatch("curl of a scalar needs 2D")
-        return V(np.stack([np.take(a, 1, axis=d), -np.take(a, 0, axis=d)], axis=d), 1, g.fi)
+        return V(J.stack([np.take(a, 1, axis=d), -np.take(a, 0, axis=d)], axis=d), 1, g.fi)
     if rank_f != 1:
         raise StructureMismatch("curl of a tensor")
     n = a.shape[d]
@@ -1154,7 +1116,7 @@ def _curl_from_grad(g, d, B):
         return V(G(1, 0) - G(0, 1), 0, g.fi)
     if n == 3:
         comps = [G(2, 1) - G(1, 2), G(0, 2) - G(2, 0), G(1, 0) - G(0, 1)]
-        return V(np.stack(comps, axis=d), 1, g.fi)
+        return V(J.stack(comps, axis=d), 1, g.fi)
     raise StructureMismatch("curl needs dimension 2 or 3")
 
 
@@ -1187,7 +1149,7 @@ def _variable_derivative(e, ctx):
         comps.append(eps_part(r.arr, d, d + 1))
     if not comps:
         raise Unsupported("empty variable")
-    arr = np.stack(bcast(*comps), axis=d + v0.rank)
+    arr = J.stack(bcast(*comps), axis=d + v0.rank)
     arr = arr.reshape(arr.shape[: d + v0.rank] + vshape + arr.shape[d + v0.rank + 1 :])
     return V(arr, v0.rank + len(vshape), v0.fi)
 
